@@ -11,6 +11,19 @@ CLAIMED = {
         "note": "Structural clause only: the eps-NTU formulas, monotonicity, bounds and inverse accuracy are numeric and NOT decided. "
                 "Trusted: CPython ast; Enum equality semantics (plain Enum member != its value).",
     },
+    "C19": {
+        "category": "other",
+        "technique": "static analysis: class-local forward dataflow (cache-invalid / fresh facts over a powerset domain), who-may-store rule on the member map, "
+                     "derived-field dependency table and refresh obligation per base-field writer, linear-form check of the shift direction, order facts for the hot/cold helper guards",
+        "text": "Decides for every method of StreamCollection that a member write leaves the sort cache invalid on every normal exit and that every cache read is "
+                "dominated by the recompute; that only the renaming insert stores into the member map; and for Stream that every writer of a base field "
+                "(temperatures, duty, contribution, coefficient) refreshes every derived field that depends on it, the shift direction matches the stream kind, "
+                "and the hot/cold bound helpers are only reached under the matching supply/target order. All operation sequences are covered because each fact is "
+                "established per method for arbitrary entry state.",
+        "design_ref": "DESIGN.md 3.2 MEMO, DERIVED + WHO",
+        "note": "Structural clauses only: the recomputation formulas (CP = Q/dT, htr = 1/htc) and numeric equality are NOT decided. "
+                "Direct assignment of derived attributes (CP, t_min, ...) by a caller is outside the property's quantifier.",
+    },
 }
 
 _NOT_BUILT = "claimed in DESIGN.md but the check is not built yet in this round"
